@@ -41,9 +41,10 @@ type Plan struct {
 }
 
 type Job struct {
-	Name string
-	Env  int
-	Plan Plan
+	Name  string
+	Env   int
+	Plan  Plan
+	Flush bool // the destination also has a Flush() error method (as bufio.Writer, gzip.Writer have)
 }
 
 type Result struct {
@@ -83,9 +84,39 @@ type envT struct {
 }
 type planT struct{ FailAt, ShortAt int }
 type jobT struct {
-	Name string
-	Env  int
-	Plan planT
+	Name  string
+	Env   int
+	Plan  planT
+	Flush bool
+}
+
+// flushW: the recording writer behind a destination that can be flushed
+type flushW struct{ *recWriter }
+
+func (f flushW) Flush() error { return nil }
+
+func sameStrMap(a, b map[string]string) bool {
+	if len(a) != len(b) {
+		return false
+	}
+	for k, v := range a {
+		if w, ok := b[k]; !ok || w != v {
+			return false
+		}
+	}
+	return true
+}
+
+func sameBoolMap(a, b map[string]bool) bool {
+	if len(a) != len(b) {
+		return false
+	}
+	for k, v := range a {
+		if w, ok := b[k]; !ok || w != v {
+			return false
+		}
+	}
+	return true
 }
 type inT struct {
 	Envs       []envT
@@ -155,8 +186,24 @@ func run(j jobT, e envT) (r resT) {
 	if e.Xs != nil {
 		e.Xs = arena[:len(e.Xs):len(arena)]
 	}
+	// the map arguments are the caller's too
+	m0Before := map[string]string{}
+	for k, v := range e.M0 {
+		m0Before[k] = v
+	}
+	mbBefore := map[string]bool{}
+	for k, v := range e.MB {
+		mbBefore[k] = v
+	}
 	t := templates[j.Name](e)
-	err := t.Render(parent, w)
+	var dst io.Writer = w
+	if j.Flush {
+		dst = flushW{w}
+	}
+	err := t.Render(parent, dst)
+	if !concurrent && (!sameStrMap(m0Before, e.M0) || !sameBoolMap(mbBefore, e.MB)) {
+		r.Panic = fmt.Sprintf("argument-mutated: the render changed a map argument of its caller (before %v %v, after %v %v)", m0Before, mbBefore, e.M0, e.MB)
+	}
 	for i, v := range arena {
 		if (i < len(before) && v != before[i]) || (i >= len(before) && v != spare) {
 			r.Panic = fmt.Sprintf("argument-mutated: the render wrote %q into element %d of its []string argument (length %d)", v, i, len(before))
